@@ -345,6 +345,9 @@ func C02(c *ev.Ctx) {
 		gs = append(gs, g)
 	}
 	sort.Strings(gs)
+	lkTried, lkExec := c02Lookalikes(c)
+	c.Set("lookalike_packages_tried", lkTried)
+	c.Set("lookalike_packages_executed", lkExec)
 	c.Set("programs", len(pkgs))
 	c.Set("disagreements_checked", st.Compared)
 	c.Set("constructs_rejected", nRejected)
